@@ -752,4 +752,47 @@ theorem load_absorbs (conv : Conv) (env : Env) (pkgs : Str → Pkg) (s : Schema)
   · intro ps ps' hps
     exact loadFin_tabEq conv s _ (withImplementers_top _ _) (withImplementers_handler _ _) ps ps' hps
 
+/-! ### when the head of the text makes the leaked calls again -/
+
+/-- calls that are made again change nothing -/
+theorem withImplementers_absorb (s : Schema) (R regs : List (Str × Str)) (h : ∀ ia ∈ regs, ia ∈ R) :
+    (s.withImplementers R).withImplementers regs = s.withImplementers R := by
+  rw [withImplementers_eq_self_iff]
+  intro ia hia
+  rw [regImpl_eq_self_iff]
+  intro a subs hm
+  rw [withImplementers_types] at hm
+  obtain ⟨p, _, hpe⟩ := List.mem_map.mp hm
+  obtain ⟨k, te⟩ := p
+  cases te with
+  | concrete t => rw [regEntries_concrete] at hpe; cases hpe
+  | abstract_ a0 subs0 =>
+    obtain ⟨add, he, _, h2, _⟩ := regEntries_abstract R k a0 subs0
+    rw [he] at hpe
+    simp only [Prod.mk.injEq, TypeEntry.abstract_.injEq] at hpe
+    obtain ⟨hk, _, hsubs⟩ := hpe
+    rw [← hsubs]
+    apply h2
+    rw [hk]
+    exact h ia hia
+
+/-- every call of a history is a call of a component some load of it read (completely or in part) -/
+theorem historyRegs_pkg (conv : Conv) (env : Env) (pkgs : Str → Pkg) (s : Schema) (hist : List LoadReq)
+    (ia : Str × Str) (hia : ia ∈ historyRegs conv env pkgs s hist) :
+    ∃ p ∈ historyImports conv env pkgs s hist ++ historyBroken conv env pkgs s hist, ia ∈ pkgRegs (pkgs p) := by
+  unfold historyRegs at hia
+  obtain ⟨x, hx, hxi⟩ := List.mem_flatMap.mp hia
+  obtain ⟨p, hp, hpi⟩ := (historyStops_sourced conv env pkgs hist s x hx).source ia hxi
+  refine ⟨p, ?_, hpi⟩
+  rcases List.mem_append.mp hp with h | h
+  · exact List.mem_append_left _ (List.mem_flatMap.mpr ⟨x, hx, h⟩)
+  · exact List.mem_append_right _ (List.mem_flatMap.mpr ⟨x, hx, h⟩)
+
+/-- the calls of a component read to its end are among the calls recorded -/
+theorem Sourced.complete {pkgs : Str → Pkg} {x : Stop} (h : Sourced pkgs x) (p : Str) (hp : p ∈ x.imports)
+    (ia : Str × Str) (hia : ia ∈ pkgRegs (pkgs p)) : ia ∈ x.regs := by
+  obtain ⟨part, hr, _⟩ := h
+  rw [hr]
+  exact List.mem_append_left _ (List.mem_flatMap.mpr ⟨p, hp, hia⟩)
+
 end ZCV.Cfg
